@@ -28,16 +28,20 @@ Record cfg := mkCfg {
   cfg_unreg_single : bool;  (* true: rfbUnregisterSecurityHandler unlinks exactly one handler and clears its ->next
                                (proposed notes/fix_C05_3.diff); false: it recurses on ->next (code as of /repo HEAD) *)
   cfg_ext : list Z;         (* the security types of the four application handler objects (ids 2..5) *)
+  cfg_udp_gated : bool;     (* true: rfbProcessUDPInput drops datagrams on a screen that requires a password
+                               (proposed notes/fix_C05_4.diff); false: /repo HEAD, every well-formed datagram is input *)
   cfg_tight : bool          (* true: object 2 is the library's own tightVncSecurityHandler (type 16), registered by
                                rfbRegisterTightVNCFileTransferExtension: choosing it starts the nested TightVNC
                                tunneling / authentication-capability negotiation of rfbtightserver.c *)
 }.
 Definition default_ext : list Z := [16%Z; 30%Z; c05_rfbSecTypeVncAuth; c05_rfbSecTypeNone].
 (* the code with fixes 1 and 2, parametrised by the list-handling variant and the application types *)
-Definition cfgF (single : bool) (ext : list Z) (tight : bool) : cfg := mkCfg false false single ext tight.
+Definition cfgF (single : bool) (ext : list Z) (tight : bool) : cfg := mkCfg false false single ext true tight.
+(* the same code with the UDP input path as it is at /repo HEAD (no notes/fix_C05_4.diff) *)
+Definition cfgU (single : bool) (ext : list Z) (tight : bool) : cfg := mkCfg false false single ext false tight.
 Definition cfg_fixed : cfg := cfgF false default_ext false.     (* fixes 1+2, list handling before 019f1b9: regression witness *)
 Definition cfg_fixed3 : cfg := cfgF true default_ext false.     (* /repo HEAD (019f1b9 = notes/fix_C05_3.diff) *)
-Definition cfg_legacy : cfg := mkCfg true true false default_ext false.   (* before the fixes: regression witness only *)
+Definition cfg_legacy : cfg := mkCfg true true false default_ext false false.   (* before the fixes: regression witness only *)
 
 (* ---------------------------------------------------------------- bytes *)
 Definition be16 (x : N) : list N := N_to_bytes 2 x.
@@ -236,6 +240,9 @@ Record screen := mkScreen { s_pw : pwmode; s_w : N; s_h : N; s_name : list N }.
    blocked in rfbReadExact for the 4-byte TightVNC authentication type / for the 16-byte response *)
 Inductive cstate := StPV | StSec | StTAuth | StTResp | StAuth | StInit | StNormal | StClosed.
 
+(* the three messages of the statement: SecurityResult OK, SecurityResult failed, ServerInit *)
+Inductive tok := TokOK | TokFail | TokSInit.
+
 Record conn := mkConn {
   c_screen : nat;
   c_rev : bool;                 (* cl->reverseConnection *)
@@ -247,27 +254,33 @@ Record conn := mkConn {
   c_vo : bool;                  (* cl->viewOnly *)
   c_out : list N;               (* everything written to the client so far *)
   c_ext : list nat;             (* application handlers invoked for this client *)
-  c_pws : list (list N)         (* ghost: the passwords the screen accepted when the response was checked *)
+  c_pws : list (list N);        (* ghost: the passwords the screen accepted when the response was checked *)
+  c_told : list tok             (* ghost: what the client has been told on the wire, in order (see [say]) *)
 }.
 
 Definition set_st (c : conn) (s : cstate) : conn :=
-  mkConn (c_screen c) (c_rev c) s (c_minor c) (c_chal c) (c_sent c) (c_resp c) (c_vo c) (c_out c) (c_ext c) (c_pws c).
+  mkConn (c_screen c) (c_rev c) s (c_minor c) (c_chal c) (c_sent c) (c_resp c) (c_vo c) (c_out c) (c_ext c) (c_pws c) (c_told c).
 Definition add_out (c : conn) (b : list N) : conn :=
-  mkConn (c_screen c) (c_rev c) (c_st c) (c_minor c) (c_chal c) (c_sent c) (c_resp c) (c_vo c) (c_out c ++ b) (c_ext c) (c_pws c).
+  mkConn (c_screen c) (c_rev c) (c_st c) (c_minor c) (c_chal c) (c_sent c) (c_resp c) (c_vo c) (c_out c ++ b) (c_ext c) (c_pws c) (c_told c).
 Definition set_minor (c : conn) (m : Z) : conn :=
-  mkConn (c_screen c) (c_rev c) (c_st c) m (c_chal c) (c_sent c) (c_resp c) (c_vo c) (c_out c) (c_ext c) (c_pws c).
+  mkConn (c_screen c) (c_rev c) (c_st c) m (c_chal c) (c_sent c) (c_resp c) (c_vo c) (c_out c) (c_ext c) (c_pws c) (c_told c).
 Definition set_chal (c : conn) (ch : list N) : conn :=
-  mkConn (c_screen c) (c_rev c) (c_st c) (c_minor c) ch (c_sent c) (c_resp c) (c_vo c) (c_out c) (c_ext c) (c_pws c).
+  mkConn (c_screen c) (c_rev c) (c_st c) (c_minor c) ch (c_sent c) (c_resp c) (c_vo c) (c_out c) (c_ext c) (c_pws c) (c_told c).
 Definition set_sent (c : conn) (ch : list N) : conn :=
-  mkConn (c_screen c) (c_rev c) (c_st c) (c_minor c) (c_chal c) ch (c_resp c) (c_vo c) (c_out c) (c_ext c) (c_pws c).
+  mkConn (c_screen c) (c_rev c) (c_st c) (c_minor c) (c_chal c) ch (c_resp c) (c_vo c) (c_out c) (c_ext c) (c_pws c) (c_told c).
 Definition set_resp (c : conn) (r : list N) : conn :=
-  mkConn (c_screen c) (c_rev c) (c_st c) (c_minor c) (c_chal c) (c_sent c) (Some r) (c_vo c) (c_out c) (c_ext c) (c_pws c).
+  mkConn (c_screen c) (c_rev c) (c_st c) (c_minor c) (c_chal c) (c_sent c) (Some r) (c_vo c) (c_out c) (c_ext c) (c_pws c) (c_told c).
 Definition set_vo (c : conn) (v : bool) : conn :=
-  mkConn (c_screen c) (c_rev c) (c_st c) (c_minor c) (c_chal c) (c_sent c) (c_resp c) v (c_out c) (c_ext c) (c_pws c).
+  mkConn (c_screen c) (c_rev c) (c_st c) (c_minor c) (c_chal c) (c_sent c) (c_resp c) v (c_out c) (c_ext c) (c_pws c) (c_told c).
 Definition set_pws (c : conn) (l : list (list N)) : conn :=
-  mkConn (c_screen c) (c_rev c) (c_st c) (c_minor c) (c_chal c) (c_sent c) (c_resp c) (c_vo c) (c_out c) (c_ext c) l.
+  mkConn (c_screen c) (c_rev c) (c_st c) (c_minor c) (c_chal c) (c_sent c) (c_resp c) (c_vo c) (c_out c) (c_ext c) l (c_told c).
+(* write one of the three messages: its bytes go to the wire AND the token is recorded; these are the
+   only places where SecurityResult / ServerInit bytes are written *)
+Definition say (c : conn) (t : tok) (bytes : list N) : conn :=
+  mkConn (c_screen c) (c_rev c) (c_st c) (c_minor c) (c_chal c) (c_sent c) (c_resp c) (c_vo c) (c_out c ++ bytes)
+         (c_ext c) (c_pws c) (c_told c ++ [t]).
 Definition add_ext (c : conn) (k : nat) : conn :=
-  mkConn (c_screen c) (c_rev c) (c_st c) (c_minor c) (c_chal c) (c_sent c) (c_resp c) (c_vo c) (c_out c) (c_ext c ++ [k]) (c_pws c).
+  mkConn (c_screen c) (c_rev c) (c_st c) (c_minor c) (c_chal c) (c_sent c) (c_resp c) (c_vo c) (c_out c) (c_ext c ++ [k]) (c_pws c) (c_told c).
 
 (* the part of the process a message handler may touch besides its own connection *)
 Record env := mkEnv {
@@ -396,11 +409,11 @@ Definition send_challenge (e : env) (c : conn) : env * conn :=
    returns the connection and whether the other RFB_NORMAL clients of the screen are closed
    (default screen flags: neverShared = alwaysShared = dontDisconnect = FALSE; C14 covers the rest) *)
 Definition client_init (s : screen) (c : conn) (shared : N) : conn * bool :=
-  (set_st (add_out c (server_init s)) StNormal, negb (c_rev c) && N.eqb shared 0).
+  (set_st (say c TokSInit (server_init s)) StNormal, negb (c_rev c) && N.eqb shared 0).
 
 (* rfbVncAuthNone *)
 Definition auth_none (s : screen) (c : conn) : conn * bool :=
-  let c1 := if (7 <? c_minor c)%Z && negb (c_minor c =? 889)%Z then add_out c auth_ok else c in
+  let c1 := if (7 <? c_minor c)%Z && negb (c_minor c =? 889)%Z then say c TokOK auth_ok else c in
   if (c_minor c =? 889)%Z then client_init s c1 1%N    (* RFB_INITIALISATION_SHARED *)
   else (set_st c1 StInit, false).
 
@@ -463,7 +476,7 @@ Definition tight_start (s : screen) (c : conn) : conn :=
     set_st (add_out c1 (be32 1 ++ tight_vnc_cap)) StTAuth
   else
     let c2 := add_out c1 (be32 0) in
-    set_st (if (7 <? c_minor c)%Z then add_out c2 auth_ok else c2) StInit.
+    set_st (if (7 <? c_minor c)%Z then say c2 TokOK auth_ok else c2) StInit.
 
 (* rfbProcessClientSecurityType *)
 Definition on_sectype (cf : cfg) (s : screen) (e : env) (c : conn) (chosen : N) : env * conn * bool :=
@@ -517,11 +530,11 @@ Definition on_response (cf : cfg) (s : screen) (e : env) (c : conn) (resp : list
   let c0 := set_pws (set_resp c resp) (screen_passwords s) in
   match password_check cf s c0 resp with
   | (false, c1) =>
-      let c2 := add_out c1 auth_failed in
+      let c2 := say c1 TokFail auth_failed in
       let c3 := if (7 <? c_minor c)%Z
                 then add_out c2 (be32 (N.of_nat (length reason_failed)) ++ reason_failed) else c2 in
       (e, set_st c3 StClosed)
-  | (true, c1) => (e, set_st (add_out c1 auth_ok) StInit)
+  | (true, c1) => (e, set_st (say c1 TokOK auth_ok) StInit)
   end.
 
 Definition msg_len (st : cstate) : nat :=
@@ -562,9 +575,12 @@ Record proc := mkProc {
   p_conns : list conn;
   p_rand : list N;
   p_err : bool;
-  p_unmod : bool       (* bytes were sent to a client in RFB_NORMAL: outside this model *)
+  p_unmod : bool;      (* bytes were sent to a client in RFB_NORMAL: outside this model *)
+  p_udp : list nat;    (* screens whose UDP input port is open (screen->udpPort != 0) *)
+  p_input : list nat   (* ghost: for every input event handed to the application through the UDP
+                          channel (kbdAddEvent / ptrAddEvent from rfbProcessUDPInput), the screen *)
 }.
-Definition proc_init : proc := mkProc hstore_init [] [] [] false false.
+Definition proc_init : proc := mkProc hstore_init [] [] [] false false [] [].
 
 Definition env_of (p : proc) : env := mkEnv (p_hs p) (p_rand p) (p_err p).
 
@@ -582,12 +598,12 @@ Definition close_others (conns : list conn) (ci scr : nat) : list conn := close_
 Definition put_conn (p : proc) (e : env) (ci : nat) (c : conn) (co : bool) : proc :=
   let conns1 := set_nth (p_conns p) ci c in
   let conns2 := if co then close_others conns1 ci (c_screen c) else conns1 in
-  mkProc (e_hs e) (p_screens p) conns2 (e_rand e) (e_err e) (p_unmod p).
+  mkProc (e_hs e) (p_screens p) conns2 (e_rand e) (e_err e) (p_unmod p) (p_udp p) (p_input p).
 
 Definition flag_err (p : proc) : proc :=
-  mkProc (p_hs p) (p_screens p) (p_conns p) (p_rand p) true (p_unmod p).
+  mkProc (p_hs p) (p_screens p) (p_conns p) (p_rand p) true (p_unmod p) (p_udp p) (p_input p).
 Definition flag_unmod (p : proc) : proc :=
-  mkProc (p_hs p) (p_screens p) (p_conns p) (p_rand p) (p_err p) true.
+  mkProc (p_hs p) (p_screens p) (p_conns p) (p_rand p) (p_err p) true (p_udp p) (p_input p).
 
 (* states in which the server sits in a blocking rfbReadExact inside a handler: if the bytes are not
    already there the read times out and the client is closed *)
@@ -639,32 +655,41 @@ Inductive op :=
   | ORand (bytes : list N)                                 (* what random() will return next *)
   | OConn (s : nat) (rev : bool) (bytes : list N) (eof : bool)   (* rfbNewClient / reverse connection *)
   | OSend (c : nat) (bytes : list N) (eof : bool)
-  | OSetFile (s : nat) (content : list N).                 (* the password file of screen s is rewritten *)
+  | OSetFile (s : nat) (content : list N)                  (* the password file of screen s is rewritten *)
+  | OUdpOn (s : nat)                                       (* the screen's UDP input port is opened *)
+  | OUdp (s : nat) (bytes : list N).                       (* a datagram from an arbitrary (unauthenticated) peer *)
+
+Definition udp_wellformed (bytes : list N) : bool :=
+  match bytes with
+  | t :: _ => (N.eqb t (Z.to_N c05_rfbKeyEvent) && Nat.eqb (length bytes) (Z.to_nat c05_sz_rfbKeyEventMsg)) ||
+              (N.eqb t (Z.to_N c05_rfbPointerEvent) && Nat.eqb (length bytes) (Z.to_nat c05_sz_rfbPointerEventMsg))
+  | [] => false
+  end.
 
 Definition is_ext (k : nat) : bool := Nat.leb 2 k && Nat.ltb k NHANDLERS.
 
 Definition with_hs (p : proc) (o : option hstore) : proc :=
   match o with
-  | Some st => mkProc st (p_screens p) (p_conns p) (p_rand p) (p_err p) (p_unmod p)
+  | Some st => mkProc st (p_screens p) (p_conns p) (p_rand p) (p_err p) (p_unmod p) (p_udp p) (p_input p)
   | None => flag_err p
   end.
 
 Definition new_conn (s : nat) (rev : bool) : conn :=
-  mkConn s rev StPV 0%Z [] [] None false server_version [] [].
+  mkConn s rev StPV 0%Z [] [] None false server_version [] [] [].
 
 Definition step (cf : cfg) (p : proc) (o : op) : proc :=
   match o with
-  | OScreen s => mkProc (p_hs p) (p_screens p ++ [s]) (p_conns p) (p_rand p) (p_err p) (p_unmod p)
+  | OScreen s => mkProc (p_hs p) (p_screens p ++ [s]) (p_conns p) (p_rand p) (p_err p) (p_unmod p) (p_udp p) (p_input p)
   | OReg k => if is_ext k then with_hs p (hs_register REC_FUEL (p_hs p) (Some k)) else flag_err p
   | OUnreg k => if is_ext k then with_hs p (hs_unregister REC_FUEL (cfg_unreg_single cf) (p_hs p) (Some k)) else flag_err p
-  | ORand b => mkProc (p_hs p) (p_screens p) (p_conns p) (p_rand p ++ b) (p_err p) (p_unmod p)
+  | ORand b => mkProc (p_hs p) (p_screens p) (p_conns p) (p_rand p ++ b) (p_err p) (p_unmod p) (p_udp p) (p_input p)
   | OConn s rev bytes eof =>
       match nth_error (p_screens p) s with
       | None => flag_err p
       | Some _ =>
           let ci := length (p_conns p) in
           let p1 := mkProc (p_hs p) (p_screens p) (p_conns p ++ [new_conn s rev]) (p_rand p)
-                           (p_err p) (p_unmod p) in
+                           (p_err p) (p_unmod p) (p_udp p) (p_input p) in
           deliver (S (length bytes)) cf p1 ci bytes eof
       end
   | OSend c bytes eof => deliver (S (length bytes)) cf p c bytes eof
@@ -674,9 +699,26 @@ Definition step (cf : cfg) (p : proc) (o : op) : proc :=
           match s_pw scr with
           | PwFile _ =>
               mkProc (p_hs p) (set_nth (p_screens p) s (mkScreen (PwFile content) (s_w scr) (s_h scr) (s_name scr)))
-                     (p_conns p) (p_rand p) (p_err p) (p_unmod p)
+                     (p_conns p) (p_rand p) (p_err p) (p_unmod p) (p_udp p) (p_input p)
           | _ => flag_err p
           end
+      | None => flag_err p
+      end
+  | OUdpOn s =>
+      match nth_error (p_screens p) s with
+      | Some _ => mkProc (p_hs p) (p_screens p) (p_conns p) (p_rand p) (p_err p) (p_unmod p)
+                         (if existsb (Nat.eqb s) (p_udp p) then p_udp p else s :: p_udp p) (p_input p)
+      | None => flag_err p
+      end
+  | OUdp s bytes =>
+      (* rfbCheckFds -> rfbProcessUDPInput: a KeyEvent datagram of 8 bytes or a PointerEvent datagram of
+         6 bytes goes straight to kbdAddEvent / ptrAddEvent; there is no state, no authentication *)
+      match nth_error (p_screens p) s with
+      | Some scr =>
+          if existsb (Nat.eqb s) (p_udp p) && udp_wellformed bytes &&
+             negb (cfg_udp_gated cf && has_password scr)
+          then mkProc (p_hs p) (p_screens p) (p_conns p) (p_rand p) (p_err p) (p_unmod p) (p_udp p) (p_input p ++ [s])
+          else p
       | None => flag_err p
       end
   end.
@@ -690,6 +732,8 @@ Definition granted (c : conn) : bool :=
 (* the client has answered the challenge that was sent to it with its DES encryption under one
    of the passwords that were configured on its screen when the answer was checked (c_pws is set
    to [screen_passwords] of the screen by on_response; the password file may change later) *)
+(* the client has been told that authentication succeeded, or has been given ServerInit *)
+Definition told_in (c : conn) : Prop := In TokOK (c_told c) \/ In TokSInit (c_told c).
 Definition proved (c : conn) : Prop :=
   exists r pw, c_resp c = Some r /\ In pw (c_pws c) /\ vnc_encrypt pw (c_sent c) = Some r.
 
